@@ -6,6 +6,7 @@ import KV.EmittedF
 import KV.T1FExec
 import KV.TypeConv
 import KV.GenConv
+import KV.BaseName
 /-! Line-protocol driver for the executable models: one request per line on stdin, one canonical answer
     line on stdout.  The correspondence check pipes the same lines to the implementation's drivers
     (verif-tagged test files in /repo) and diffs the two streams.
@@ -16,6 +17,7 @@ import KV.GenConv
       I path=name path=name ...       TypeConverter.AddImport history
       T <cur|-> | <package names> | <type s-expression>   TypeConverter.TypeToExpr (KV/TypeConv.lean)
       G <cur> | <package names> | <registered names> | <type>   createASTTypeExpr (KV/GenConv.lean)
+      B <type>                        VarPool.getBaseName (KV/BaseName.lean)
       F crash|fault                   witnesses of the install step list (failure path of C15)
       X <decl> | fails <decl idx>.. | cancel <0|1>   outcomes the T1F semantics allows for the emitted program
       XS <same>                       the same, followed by ` states=<n>` (states expanded by the search)
@@ -125,6 +127,7 @@ def parseTyS : Nat → List String → Option (GConv.Ty × List String)
   | fuel + 1, toks =>
     match toks with
     | [] => none
+    | "ctx" :: rest => some (.node (.named BaseName.contextPkg 16) [], rest)
     | "ie" :: rest => some (.node (.iface []) [], rest)
     | "il" :: rest => some (.node (.iface [0]) [.node (.func 0) []], rest)
     | "(" :: kind :: rest =>
@@ -181,7 +184,7 @@ def parseTyS : Nat → List String → Option (GConv.Ty × List String)
     | t :: rest =>
       if t.startsWith "b" then
         match (t.drop 1).toString.toNat? with
-        | some k => if k < 8 then some (.node (.basic k) [], rest) else none
+        | some k => if k < 16 then some (.node (.basic k) [], rest) else none
         | none => none
       else none
 def parseKids : Nat → List String → Option (List GConv.Ty × List String)
@@ -277,6 +280,12 @@ def handleGenConv (line : String) : String :=
         | some (st, e) =>
           "G " ++ GConv.exStr e ++ " | " ++ " ".intercalate (sortStrs (st.imports.map (fun (p, n) => "p" ++ toString p ++ "=" ++ n)))
       | _ => "BAD"
+  | _ => "BAD"
+
+def handleBaseName (line : String) : String :=
+  let toks := words line
+  match parseTyS (toks.length + 2) toks with
+  | some (t, []) => if !variadicOk false t || !ifacesOk t then "BAD" else "B " ++ BaseName.baseName t
   | _ => "BAD"
 
 def contStr : Inst.Cont → String
@@ -451,6 +460,7 @@ def handle (line : String) : String :=
   else if line.startsWith "F " then handleInstall (line.drop 2).trimAscii.toString
   else if line.startsWith "T " then handleTypeConv (line.drop 2).toString
   else if line.startsWith "G " then handleGenConv (line.drop 2).toString
+  else if line.startsWith "B " then handleBaseName (line.drop 2).toString
   else if line.startsWith "W " then handleWire (line.drop 2).toString
   else if line.startsWith "X " then handleOutcomes false (line.drop 2).toString
   else if line.startsWith "XS " then handleOutcomes true (line.drop 3).toString
